@@ -84,12 +84,13 @@ def check_insert(before, after, req, ret, ref, V, tick, site):
             V("covered", site, f"requested T={t!r} is not within tolerance of any row")
             break
     # curves: equal to the piecewise-linear reference at every row
-    Tr, R, cr = ref["T"], ref["data"], ref["ci"]
-    xr = Tr[::-1]
+    if "cols" not in ref:
+        ref = dict(cols={name: (ref["T"], ref["data"][:, ref["ci"][name]]) for name in CURVES if name in ref["ci"]})
     for name in CURVES:
-        if name not in ci or name not in cr:
+        if name not in ci or name not in ref["cols"]:
             continue
-        col_r = R[:, cr[name]]
+        Tr, col_r = ref["cols"][name]
+        xr = Tr[::-1]
         col_a = A[:, ci[name]]
         if np.isnan(col_r).all():
             tick("nan_cols")
@@ -200,6 +201,7 @@ class C08(World):
             n_req=sw.choice([1, 2, 3, 5, 8, 12]),
             nice=sw.random() < 0.6,
             shifted=sw.random() < 0.5,
+            p_populate=sw.choice([0, 0, 0.15, 0.4]),
             w=dict(mid=sw.choice([1, 3]), top=sw.choice([0, 1]), bot=sw.choice([0, 1]), row=sw.choice([0, 1, 2]), chain=sw.choice([0, 0, 1]), absv=sw.choice([0, 1]), again=sw.choice([0, 1])),
         )
         nice = swarm["nice"]
@@ -270,10 +272,16 @@ class C08(World):
             return [["abs", float(args.choice([0, 55, 123.456, 210, 500, -20])) if nice else round(args.uniform(-50, 450), args.choice([0, 2, 6]))]]
 
         for r in range(swarm["n_req"]):
+            if r and args.random() < swarm["p_populate"]:
+                # between two insertions the owner of the table fills a curve column (as the pipeline stages do) or works on a copy
+                if args.random() < 0.25:
+                    steps.append(dict(op="copy"))
+                else:
+                    steps.append(dict(op="populate", col=args.randrange(64), prefer_nan=args.random() < 0.7, via=args.choice(["loc", "iloc", "icol", "col", "update", "update_row", "data"]), vals=[round(args.uniform(-500, 1500), 3) for _ in range(7)]))
             if r and w["again"] and args.random() < 0.2:
                 steps.append(dict(op="again", which=args.randrange(64)))
                 continue
-            form = args.choice(["scalar", "list", "list", "list"])
+            form = args.choice(["scalar", "list", "list", "list", "ndarray", "tuple"])
             if form == "scalar":
                 refs = one_ref()[:1]
             else:
@@ -334,6 +342,8 @@ class C08(World):
             if op == "build":
                 pt = self._build(st)
                 original = table_view(pt) if pt is not None else None
+                if original is not None:
+                    original["cols"] = {name: (original["T"], original["data"][:, original["ci"][name]]) for name in CURVES}
                 log.append(["build", None if pt is None else pt.data.shape[0]])
                 continue
             if op == "synthetic":
@@ -350,6 +360,7 @@ class C08(World):
                 d.update(st["extras"])
                 pt = ProblemTable(d)
                 original = table_view(pt)
+                original["cols"] = {name: (original["T"], original["data"][:, original["ci"][name]]) for name in CURVES}
                 if any(np.isnan(pt.data[:, pt.col_index[c]]).all() for c in CURVES):
                     probe("nan_column_present")
                 log.append(["synthetic", n, sorted(st["curves"])])
@@ -358,6 +369,42 @@ class C08(World):
                 log.append([op, "skip"])
                 continue
             T = pt.data[:, pt.col_index["T"]]
+            if op == "copy":
+                pt = pt.copy
+                probe("continued_on_a_copy")
+                log.append([op])
+                continue
+            if op == "populate":
+                ci_ = pt.col_index
+                nan_cols = [c for c in CURVES if np.isnan(pt.data[:, ci_[c]]).all()]
+                pool = nan_cols if (st["prefer_nan"] and nan_cols) else CURVES
+                name = pool[st["col"] % len(pool)]
+                n = pt.data.shape[0]
+                vals = np.asarray([st["vals"][i % len(st["vals"])] + 0.37 * i for i in range(n)], dtype=float)
+                via = st["via"]
+                if via == "loc":
+                    for i in range(n):
+                        pt.loc[i, name] = vals[i]
+                elif via == "iloc":
+                    for i in range(n):
+                        pt.iloc[i, name] = vals[i]
+                elif via == "icol":
+                    pt.icol[ci_[name]] = vals
+                elif via == "col":
+                    pt.col[name] = vals
+                elif via == "update":
+                    pt.update({name: vals})
+                elif via == "update_row":
+                    for i in range(n):
+                        pt.update_row(i, {name: vals[i]})
+                else:
+                    pt.data[:, ci_[name]] = vals
+                original["cols"][name] = (T.copy(), vals.copy())
+                probe("column_populated_between_insertions")
+                if name in nan_cols:
+                    probe("nan_column_populated_between_insertions")
+                log.append([op, name, via])
+                continue
             if op == "again":
                 if not history:
                     log.append([op, "skip"])
@@ -370,6 +417,10 @@ class C08(World):
             arg = req[0] if form == "scalar" and req else list(req)
             if form == "scalar" and not req:
                 arg = []
+            elif form == "ndarray":
+                arg = np.asarray(req, dtype=float)
+            elif form == "tuple":
+                arg = tuple(req)
             try:
                 ret = pt.insert_temperature_interval(arg)
             except Exception as e:
